@@ -1,0 +1,1 @@
+//! Verification doors: icmp (cfg(trusttunnel_verif) only)
